@@ -23,7 +23,7 @@ ParamsOf(t) ==
   LET ix == Pairs(t.names)
   IN  [tu |-> t.tu, au |-> t.au, icfi |-> t.icfi, sfx |-> t.sfx, ms |-> Range(t.ms),
        plt |-> t.pie /\ t.fmt = "elf" /\ t.isa \in {"x64", "ia32"},
-       isa |-> t.isa, mips |-> t.isa = "mips32",
+       isa |-> t.isa, syn |-> t.syn, mips |-> t.isa = "mips32",
        rn |-> [l \in NameU |-> t.names[ix[l]][2]]]
 \* tokens with the sizes the disassembler observed for the instructions
 \* (nothing to observe after a refusal: the nominal sizes are kept)
@@ -57,7 +57,7 @@ SomeOk(X) == \E i \in DOMAIN Runs(X) : Runs(X)[i].V.exc = ""
 (* C13_UniqueNames: the same text inserted at N sites of one rewrite       *)
 (***************************************************************************)
 TempLabels(X) == {X.Vw.toks[i].l : i \in {j \in Idx(X.Vw) : X.Vw.toks[j].k = "label" /\ X.Vw.toks[j].l \in TempNames}}
-GlobalLabels(X) == {X.Vw.toks[i].l : i \in {j \in Idx(X.Vw) : X.Vw.toks[j].k = "label" /\ X.Vw.toks[j].l \notin TempNames}}
+GlobalLabels(X) == {X.Vw.toks[i].l : i \in {j \in Idx(X.Vw) : X.Vw.toks[j].k \in DefKinds /\ X.Vw.toks[j].l \notin TempNames}}
 \* targets for which gtirb-rewriting has an ABI (anything else is refused
 \* with NotImplementedError: outside the quantifier)
 HasAbi(t) == <<t.isa, t.fmt>> \in {<<"x64", "elf">>, <<"x64", "pe">>, <<"ia32", "pe">>,
@@ -65,7 +65,7 @@ HasAbi(t) == <<t.isa, t.fmt>> \in {<<"x64", "elf">>, <<"x64", "pe">>, <<"ia32", 
 RwRuns(X) == X.t.rw # <<>> /\ X.W.exc = "" /\ HasAbi(X.t)
 RwDomain(X) ==
   /\ RwRuns(X)
-  /\ \A i \in Idx(X.Vw) : X.Vw.toks[i].k \notin ({"sec", "uleb", "align"} \cup CfiKinds)
+  /\ \A i \in Idx(X.Vw) : X.Vw.toks[i].k \notin ({"sec", "uleb", "align", "assign"} \cup CfiKinds)
   /\ \A i \in RefIdx(X.Vw) : ~Unresolved(X.Vw, i)
   /\ X.Vw.len["text"] > 0
 \* legitimate refusals of a rewrite that inserts the text N times
@@ -163,6 +163,12 @@ KF_C13_1(X) ==
   /\ \A i \in DOMAIN X.t.rw :
         X.t.rw[i].exc \in RwAllowed(X, X.t.rw[i]) \cup {"AssertionError", "IndexError"}
 
+\* KF-C12-4: ARM64 / MIPS32, a direct transfer to a constant target trips
+\* `assert len(fixups) == 1` in assemble() instead of being refused.
+KF_C12_4(V, run) ==
+  /\ OpenDefect(V) /\ run.stage # "finalize" /\ run.stage # "done"
+  /\ "UnsupportedAssemblyError" \in AllowedRefusals(V)
+
 KfTags(X, clause) ==
   (IF clause = "C12_EdgeShape"
       /\ \A i \in DOMAIN Runs(X) : Runs(X)[i].V.exc = "" =>
@@ -170,6 +176,11 @@ KfTags(X, clause) ==
    THEN {"KF-C12-1"} ELSE {})
   \cup
   (IF clause = "C13_Completes" /\ Completes(X.Vc) /\ KF_C13_1(X) THEN {"KF-C13-1"} ELSE {})
+  \cup
+  (IF clause \in {"C12_Completes", "C13_Completes"}
+      /\ \A i \in DOMAIN Runs(X) : (Completes(Runs(X)[i].V) \/ KF_C12_4(Runs(X)[i].V, Runs(X)[i].r))
+      /\ (clause = "C13_Completes" /\ RwRuns(X) => RwCompletes(X))
+   THEN {"KF-C12-4"} ELSE {})
 
 (***************************************************************************)
 (* Clauses  <<name, in-domain, holds>>                                     *)
@@ -188,6 +199,8 @@ Clauses(X) ==
          <<"C12_DataConversion", ok /\ ~HasCfi(X.Vw), AllRuns(X, LAMBDA V, r : C12_DataConversion(V))>>,
          <<"C12_Operands", ok, AllRuns(X, LAMBDA V, r : C12_Operands(V, r.dec))>>,
          <<"C12_Alignment", ok, AllRuns(X, LAMBDA V, r : C12_Alignment(V))>>,
+         <<"C12_Strings", ok, AllRuns(X, LAMBDA V, r : C12_Strings(V))>>,
+         <<"C13_Assignments", ok, AllRuns(X, LAMBDA V, r : C13_Assignments(V))>>,
          <<"C13_TempSuffix", ok, AllRuns(X, LAMBDA V, r : C13_TempSuffix(V))>>,
          <<"C13_Binding", ok, AllRuns(X, LAMBDA V, r : C13_Binding(V))>>,
          <<"C13_MultipleDefinitions", dom, C13_MultipleDefinitions(X.Vw) /\ C13_MultipleDefinitions(X.Vc)>>,
@@ -242,14 +255,19 @@ RwDrift(t) ==
   IN  IF t.exc = "" /\ bad # {} THEN <<"rewrite", "suffix", ToString(t.syms)>> ELSE <<>>
 VerdictRw(t) ==
   LET S == RwView(t)
+      cs == << <<"C13_UniqueAcrossPatches",
+                 \* (a symbol without referent is no call target: that rewrite is refused)
+                 HasAbi(t) /\ ~(t.ext.pre = "none" /\ t.ext.ref = "call"),
+                 C13_UniqueAcrossPatches(S)>>,
+               <<"C13_ExternBinding", HasAbi(t) /\ t.ext.pre # "off", C13_ExternBinding(t.ext)>> >>
+      bad == SelectSeq(cs, LAMBDA c : c[2] /\ ~c[3])
+      indom == SelectSeq(cs, LAMBDA c : c[2])
       dom == HasAbi(t)
-      okc == C13_UniqueAcrossPatches(S)
   IN  [id |-> t.id,
-       indomain |-> IF dom THEN <<"C13_UniqueAcrossPatches">> ELSE <<>>,
-       failed |-> IF dom /\ ~okc
-                  THEN <<[clause |-> "C13_UniqueAcrossPatches",
-                          diff |-> [exc |-> t.exc, syms |-> t.syms, order |-> t.order], kf |-> {}]>>
-                  ELSE <<>>,
+       indomain |-> [i \in 1..Len(indom) |-> indom[i][1]],
+       failed |-> [i \in 1..Len(bad) |->
+                     [clause |-> bad[i][1],
+                      diff |-> [exc |-> t.exc, syms |-> t.syms, order |-> t.order, ext |-> t.ext], kf |-> {}]],
        drift |-> IF dom THEN RwDrift(t) ELSE <<>>,
        exc |-> t.exc]
 VerdictOf(t) == IF t.kind = "rwx" THEN VerdictRw(t) ELSE Verdict(t)
